@@ -78,6 +78,8 @@ Table == <<
   \* `$ -i f'): the blank after `$' keeps `$ *' from being read as the product operator `$*'
   Form("$*c", "$ *c", "bin", 3, "statement"),
   Form("$-i", "$ -i", "bin", 3, "statement"),
+  \* `$ expression function': the initial value is an EXPRESSION — `$ i + j f' starts from i + j
+  Form("$i+j", "$ i + j", "bin", 3, "statement"),
   Sym("$+", <<"$", "+">>, "post", 3, "table"),
   Sym("$*", <<"$", "*">>, "post", 3, "table"),
   Sym("$&&", <<"$", "&", "&">>, "post", 3, "table"),
@@ -183,7 +185,7 @@ Determined(ts) ==
 \*  `a ? int | ! b'   `int | !' is a union type (`!' = never), so the type filter's type competes
 \*              with bitwise OR followed by NOT.
 UnsettledPrefixAfter(binName) == IF binName = "?" THEN {"!"}
-                                 ELSE IF binName \in {"$i", "$*c", "$-i"} THEN {"-", "*"} ELSE {}
+                                 ELSE IF binName \in {"$i", "$*c", "$-i", "$i+j"} THEN {"-", "*"} ELSE {}
 Settled(ts) ==
   /\ \A i \in 1..(Len(ts) - 1) :
         (ts[i].t = "bin" /\ ts[i + 1].t = "pre") => ts[i + 1].s \notin UnsettledPrefixAfter(ts[i].s)
@@ -610,6 +612,9 @@ Ev(t, env, st) ==
          ELSE IF t.o.s = "$*c" THEN
                 (IF env["c"].k # "cell" THEN [v |-> TErr, st |-> b.st]
                  ELSE [v |-> ApBin("$i", a.v, b.v, [env EXCEPT !["i"] = b.st[env["c"].id]]), st |-> b.st])
+         ELSE IF t.o.s = "$i+j" THEN
+                (IF env["i"].k # "int" \/ env["j"].k # "int" THEN [v |-> TErr, st |-> b.st]
+                 ELSE [v |-> ApBin("$i", a.v, b.v, [env EXCEPT !["i"] = VI(env["i"].v + env["j"].v)]), st |-> b.st])
          ELSE IF t.o.s = "$-i" THEN
                 (IF env["i"].k # "int" THEN [v |-> TErr, st |-> b.st]
                  ELSE [v |-> ApBin("$i", a.v, b.v, [env EXCEPT !["i"] = VI(-env["i"].v)]), st |-> b.st])
